@@ -12,13 +12,19 @@
        imbalance / sums (C16), MultiJagged up to a renaming of parts (C11),
        Rcb's split fold (the lemma behind C04), ZCurve for every sort oracle
        and HilbertCurve for every split vector (C09).
-   NOT proved: [forall s1 s2, alg s1 x = alg s2 x] for the whole of Rcb, Rib,
-   HilbertCurve, ZCurve, KMeans, MultiJagged; the theorems named [..._partial]
-   say which part of it they cover.  What real work stealing does is only
+   Whole-algorithm statements [forall s1 s2, alg s1 x = alg s2 x] are proved
+   for the dual graph, the load / imbalance functions, Rcb and Rib (given the
+   rotated points), HilbertCurve (given the curve indices, exact integer sums,
+   one named float assumption) and MultiJagged at exact arithmetic (up to
+   renaming).  NOT proved: ZCurve beyond "every sort oracle gives runs of the
+   same codes", MultiJagged in binary64 beyond the leaf order, KMeans, and the
+   OBB step (rotation / curve indices / quadrants) of Rib, HilbertCurve,
+   ZCurve; the theorems named [..._partial] say which part they cover.  What real work stealing does is only
    sampled by the check. *)
 From Coupe Require Import Lib.Prelude Lib.SFloat Lib.Report Lib.Rayon Run.RunC06 Proofs.C06Proofs.
 From Coupe Require Proofs.C06Collect.
-From Coupe Require Properties.C11 Properties.C03.
+From Coupe Require Properties.C11 Properties.C03 Properties.C09.
+From Coupe Require Model.SfcSched Proofs.SfcSchedProofs.
 From Coupe Require Model.Dual Model.Metrics Model.MultiJagged Proofs.MultiJaggedProofs
   Model.Rcb Proofs.SFOrder Proofs.RcbBalance Model.SfcPart Proofs.SfcProofs Proofs.ZCurveProofs Proofs.ZCheckProofs.
 From Coq Require Import Permutation QArith.QArith Sorting.Sorted Floats.SpecFloat.
@@ -108,11 +114,48 @@ Proof. exact MetricsC.par_sum_two_trees. Qed.
 Print Assumptions C06_par_sum_sched_indep.
 
 (* ---- MultiJagged (C11), "up to a renaming of parts".
-   PARTIAL (1): the only schedule-dependent DATA of the model are the order in
-   which the leaves draw their number from the atomic counter ([ord]) and the
-   block decomposition of rayon's scan ([blk]).  For every arithmetic, any two
-   leaf orders give the same partition of the index set (same kernel): two
-   elements share a part in one run iff they do in the other. *)
+   The schedule-dependent DATA of the model are the order in which the leaves
+   draw their number from the atomic counter ([ord]) and the block
+   decomposition of rayon's scan in each call of compute_split_positions
+   ([blk]).  The sort oracle is NOT a schedule (rayon's unstable sort is a
+   deterministic function of the slice) but an unspecified choice; it is
+   treated separately below.
+
+   WHOLE ALGORITHM at exact arithmetic (the model [QA]: what the code computes
+   "when all arithmetic is exact", the hypothesis of the property read
+   literally), non-negative weights: any two block decompositions and any two
+   leaf orders give the same partition of the elements up to the names of the
+   parts.  Not covered: binary64 on integer-valued inputs, where the
+   thresholds `total * parts_i / parts` and their accumulation round -- for
+   binary64 only the leaf-order statement below is proved. *)
+Theorem C06_multijagged_sched_indep_exact :
+  forall D npts (wq : list Q) sorter cxlt root blk1 blk2 ord1 ord2 (k : N) (m : nat) p0 p1 p2,
+  MultiJaggedProofs.root_ok root -> MultiJaggedProofs.sorter_ok sorter cxlt ->
+  MultiJaggedProofs.ord_ok ord1 (N.to_nat k) -> MultiJaggedProofs.ord_ok ord2 (N.to_nat k) ->
+  (1 <= k)%N -> (k < 2 ^ 60)%N -> (1 <= m)%nat ->
+  Forall (Qle 0) wq -> length p0 = npts ->
+  MultiJagged.multi_jagged MultiJagged.QA D npts wq sorter blk1 root ord1 k m p0 = Ok p1 ->
+  MultiJagged.multi_jagged MultiJagged.QA D npts wq sorter blk2 root ord2 k m p0 = Ok p2 ->
+  length p1 = npts /\ length p2 = npts /\
+  forall x y, (x < npts)%nat -> (y < npts)%nat ->
+    (nth_opt p1 x = nth_opt p1 y <-> nth_opt p2 x = nth_opt p2 y).
+Proof. exact C11.C11_sched_indep_exact. Qed.
+Print Assumptions C06_multijagged_sched_indep_exact.
+
+(* ... and with the same leaf order the block decompositions change nothing at
+   all: the very same array (exact arithmetic, whole algorithm) *)
+Theorem C06_multijagged_blocks_irrelevant_exact :
+  forall D npts (wq : list Q) sorter blk1 blk2, Forall (Qle 0) wq ->
+  forall root ord k m p0, MultiJaggedProofs.root_ok root -> (1 <= k)%N -> (k < 2 ^ 60)%N -> (1 <= m)%nat ->
+  MultiJagged.multi_jagged MultiJagged.QA D npts wq sorter blk1 root ord k m p0
+  = MultiJagged.multi_jagged MultiJagged.QA D npts wq sorter blk2 root ord k m p0.
+Proof. exact C11.C11_blocks_irrelevant_whole. Qed.
+Print Assumptions C06_multijagged_blocks_irrelevant_exact.
+
+(* PARTIAL (binary64 and every other arithmetic): any two leaf orders give the
+   same partition of the index set (same kernel).  What is missing for
+   binary64: independence of the block decomposition (a different association
+   of the block sums can round differently). *)
 Theorem C06_multijagged_leaf_order_partial :
   forall (A : MultiJagged.arith) D npts (wts : list (MultiJagged.num A)) sorter blk cxlt,
   MultiJaggedProofs.sorter_ok sorter cxlt ->
@@ -127,21 +170,28 @@ Theorem C06_multijagged_leaf_order_partial :
 Proof. exact C11.C11_leaf_order_irrelevant. Qed.
 Print Assumptions C06_multijagged_leaf_order_partial.
 
-(* PARTIAL (2): at exact arithmetic, for non-negative weights and increasing
-   non-negative thresholds, the split positions of one slab are the same for
-   every block decomposition of the scan.  What is missing for the whole
-   algorithm: this is a statement about ONE call of compute_split_positions;
-   it is not lifted to [multi_jagged blk1 = multi_jagged blk2], and nothing is
-   proved for binary64 (where a different association of the block sums can
-   round differently -- the property's "when all arithmetic is exact"). *)
-Theorem C06_multijagged_blocks_partial : forall wl ths bs1 bs2,
-  Forall (Qle 0) wl -> StronglySorted Qle ths -> Forall (Qle 0) ths ->
-  MultiJagged.csp_core MultiJagged.QA wl ths bs1 = MultiJagged.csp_core MultiJagged.QA wl ths bs2.
-Proof. exact C11.C11_blocks_irrelevant. Qed.
-Print Assumptions C06_multijagged_blocks_partial.
+(* the sort oracle (order of elements with EQUAL coordinates along an axis):
+   for every arithmetic, when no two points share a coordinate along an axis
+   any two admissible oracles give the same result; with ties the partition
+   itself can change (C11.C11_sort_ties_can_change_the_partition: three
+   coincident points, weights 1 2 1, two parts: {0}|{1,2} or {2}|{1,0}) -- so
+   "same partition for every run" for MultiJagged on inputs with coincident
+   coordinates rests on rayon's sort being a function of the slice (trusted
+   base), not on a theorem *)
+Theorem C06_multijagged_sort_oracle_without_ties :
+  forall (A : MultiJagged.arith) D npts (wts : list (MultiJagged.num A)) blk (key : nat -> nat -> Z) sorter1 sorter2,
+  MultiJaggedProofs.sorter_ok sorter1 (MultiJaggedProofs.key_lt key) ->
+  MultiJaggedProofs.sorter_ok sorter2 (MultiJaggedProofs.key_lt key) ->
+  (forall a x y, (x < npts)%nat -> (y < npts)%nat -> key a x = key a y -> x = y) ->
+  forall root ord k m p0,
+  MultiJagged.multi_jagged A D npts wts sorter1 blk root ord k m p0
+  = MultiJagged.multi_jagged A D npts wts sorter2 blk root ord k m p0.
+Proof. exact C11.C11_sort_oracle_irrelevant_without_ties. Qed.
+Print Assumptions C06_multijagged_sort_oracle_without_ties.
 
 (* ---- Rcb / Rib: the fold + reduce of par_rcb_split (the lemma behind C04).
-   PARTIAL.  For ANY two split trees of the same fold over the same slice
+   INGREDIENT, kept for what it says about ONE fold (the whole-algorithm
+   statement is C06_rcb_sched_indep below).  For ANY two split trees of the same fold over the same slice
    (coordinates not NaN), the two results (count, weight_left, pivot index,
    pivot coordinate) agree on: the weight left of the target (both are the
    exact sum [Wl]); whether a point lies on the right at all; the pivot
@@ -149,12 +199,11 @@ Print Assumptions C06_multijagged_blocks_partial.
    points on the right: equal numbers; the INDEX may differ between trees when
    several points share that coordinate); hence the set that reorder_split
    puts on the low side ([filter (< pivot coordinate)]) is the same.
-   What is missing: [forall s1 s2, rcb s1 x = rcb s2 x] (announced by the C03/C04
-   development as rcb_sched_indep, not available yet: the place for it is
-   marked in Proofs/C06Collect.v and at the end of this section).  The two runs may
-   hold the same sets in different ORDERS after the in-place reordering, and
-   invariance of the later folds under that reordering (true for exact integer
-   weight sums) is not proved; weights are modelled as exact integers. *)
+   Named _partial because by itself it is a statement about one fold only: the
+   two runs may hold the same sets in different ORDERS after the in-place
+   reordering; that the later folds are invariant under that reordering is what
+   C03's rcb_rec_perm adds to obtain C06_rcb_sched_indep.  Weights are modelled
+   as exact integers. *)
 Theorem C06_rcb_fold_sched_indep_partial : forall t s1 s2 (xs : list (Rcb.keyed spec_float)),
   SFOrder.f32v t = true -> Forall (fun x : Rcb.keyed spec_float => SFOrder.f32v (fst x) = true) xs ->
   let '(_, w1, n1, d1) := Rcb.par_fold spec_float flt f32_sub Rcb.f32_zero Rcb.f32_inf true t s1 0%nat xs in
@@ -227,9 +276,9 @@ Print Assumptions C06_zcurve_every_sort_oracle_partial.
    through the split vector.  For EVERY split vector -- whatever a schedule made
    of those sums -- the ids are the library binary search of the curve indices:
    total, monotone along the curve, equal indices get equal ids.
-   What is missing: that the split vector itself is the same for every schedule
-   (the model folds the f64 weights in sequence order; exactness of those sums
-   is a per-case premise of the check), and the curve indices are data. *)
+   That the split vector itself is the same for every schedule is
+   C06_hilbert_sched_indep below (exact integer sums); for weights whose sums
+   round nothing is proved.  The curve indices are data. *)
 Theorem C06_hilbert_every_split_vector_partial : forall (splits idx : list N),
   exists ids, SfcPart.assign_parts splits idx = Ok ids
     /\ length ids = length idx
@@ -237,6 +286,28 @@ Theorem C06_hilbert_every_split_vector_partial : forall (splits idx : list N),
     /\ Forall (fun p => (p <= N.of_nat (length splits))%N) ids.
 Proof. exact HilC.hilbert_assign_any_splits. Qed.
 Print Assumptions C06_hilbert_every_split_vector_partial.
+
+(* ---- HilbertCurve, WHOLE ALGORITHM given the per-point curve indices (C09).
+   [SfcSched.hilbert_partition_s ts] takes one rayon split tree per round of
+   the quantile search for the only schedule-dependent construct, the
+   fold/reduce of the per-part weight histogram.  For integer-valued
+   non-negative weights with total <= 2^53 ([exact_sums]) any two families of
+   trees give the same result (ids, error or fuel exhaustion alike) -- and it
+   is the sequential model C09 compares with the code
+   (C09.C09_hilbert_sched_is_sequential).
+   Premise [f64_add_exact_on_integers]: f64 `+` is exact on non-negative
+   integers with sum <= 2^53 -- DESIGN §6's named assumption, NOT proved from
+   SpecFloat here (instances: C09.C09_f64_add_exact_instances); it is listed
+   in the trusted base of this check.  The curve indices (the encoders and the
+   rotation that precedes them) are data: their own dependence on the pool
+   size is the open known finding obb-inexact-sums. *)
+Theorem C06_hilbert_sched_indep : SfcSchedProofs.f64_add_exact_on_integers ->
+  forall ws, SfcSched.exact_sums ws ->
+  forall ts1 ts2 tol maxo order fuel idx k p0,
+  SfcSched.hilbert_partition_s ts1 tol maxo order fuel idx ws k p0
+  = SfcSched.hilbert_partition_s ts2 tol maxo order fuel idx ws k p0.
+Proof. exact C09.C09_hilbert_sched_indep. Qed.
+Print Assumptions C06_hilbert_sched_indep.
 
 (* non-vacuity of the collected statements: two different split trees of the
    Rcb fold on a slice with a tie on the right (two points at coordinate 2):
